@@ -427,14 +427,14 @@ func (r *Repository) tags(ctx context.Context, last string, fn func(tags []strin
 		return "", err
 	}
 	if r.TagListPageSize > 0 || last != "" {
-		q := req.URL.Query()
+		var params []string
 		if r.TagListPageSize > 0 {
-			q.Set("n", strconv.Itoa(r.TagListPageSize))
+			params = append(params, "n", strconv.Itoa(r.TagListPageSize))
 		}
 		if last != "" {
-			q.Set("last", last)
+			params = append(params, "last", last)
 		}
-		req.URL.RawQuery = q.Encode()
+		req.URL.RawQuery = setQueryParams(req.URL.RawQuery, params...)
 	}
 	resp, err := r.do(req)
 	if err != nil {
@@ -549,9 +549,7 @@ func (r *Repository) referrersPageByAPI(ctx context.Context, artifactType string
 		return "", err
 	}
 	if r.ReferrerListPageSize > 0 {
-		q := req.URL.Query()
-		q.Set("n", strconv.Itoa(r.ReferrerListPageSize))
-		req.URL.RawQuery = q.Encode()
+		req.URL.RawQuery = setQueryParams(req.URL.RawQuery, "n", strconv.Itoa(r.ReferrerListPageSize))
 	}
 
 	resp, err := r.do(req)
